@@ -58,6 +58,7 @@ def run(P: Program, R: Report, tier: str) -> None:
         "are read from the function(s) that run the matching steps."
     )
     R.decides += ["columns are consumed exactly when they are assigned, no assignment can overwrite an earlier one, the leftover list is threaded through all steps, exact standard-key matching comes first"]
+    R.decides += ['the computed-feature table shares no key with the standard keys']
     R.not_decided += ["which fuzzy match wins (difflib scores)"]
     mod = P.func_named("infer_node_name_map").module
     mfuncs = [f for f in P.functions.values() if f.module is mod and f.parent is None]
